@@ -225,6 +225,23 @@ def _cfg_tag(cfg):
     return ','.join('%s=%s' % (k, v) for k, v in sorted(cfg.items()))
 
 
+
+def _direction_obls(obj, ins, outs, base, cfg, name):
+    """the interface of the block as built by the real constructor: every wire the statement reads as an input is attached to
+    an input port of the block, every wire it reads as an output to an output port (finite structural fact, by reflection)"""
+    res = []
+    inw = [p.wire for p in getattr(obj, 'inPorts', [])]; outw = [p.wire for p in getattr(obj, 'outPorts', [])]
+    for kind, table, pool, other in (('in', ins, inw, outw), ('out', outs, outw, inw)):
+        for k, w in table.items():
+            ok = any(x is w for x in pool)
+            if ok or not any(x is w for x in other):
+                continue          # wires that are no port of the block at all (observed internal wires) carry no direction claim
+            res.append({'oid': '%s#port_direction[%s]' % (base, k), 'status': 'refuted', 'cfg': cfg, 'model': {}, 'mode': 'native/structural', 'function': name,
+                        'replay': {'reproduced': True, 'expected': '%s is an %sput port of the block' % (k, kind), 'got': 'it is attached as an %sput port' % ('out' if kind == 'in' else 'in')}})
+    if not res:
+        res.append({'oid': '%s#port_directions' % base, 'status': 'proved', 'mode': 'native/structural', 'backend': 'reflection', 'seconds': 0.0, 'function': name, 'cfg': cfg})
+    return res
+
 def comb_item(name, cfg, tier='quick', timeout_s=10, seed=0):
     """one combinational block at one configuration: compose leaf contracts, discharge the block-level
     postcondition for all input values"""
@@ -238,7 +255,7 @@ def comb_item(name, cfg, tier='quick', timeout_s=10, seed=0):
         obj, ins, outs = N.quiet(b.make, sys_, dict(cfg))
     except Exception as e:
         return [{'oid': base + '#refused', 'status': 'refused', 'bounded': True, 'evaluations': 0, 'reason': repr(e)[:200], 'cfg': cfg}]
-    out = []
+    out = _direction_obls(obj, ins, outs, base, cfg, name)
     t0 = time.time()
     try:
         nl = N.Netlist(sys_)
@@ -443,7 +460,7 @@ def seq_item(name, cfg, tier='quick', timeout_s=10, seed=0):
                  'function': name, 'seconds': time.time() - t0}]
     except Exception as e:
         return [{'oid': base + '#refused', 'status': 'refused', 'bounded': True, 'evaluations': 0, 'reason': repr(e)[:200], 'cfg': cfg}]
-    out = []
+    out = _direction_obls(obj, ins, outs, base, cfg, name)
     try:
         byid, I = N.input_vars(ins)
         S = {k: ir.var('st:' + k, lo, hi) for k, (lo, hi) in sp['state'](cfg).items()}
